@@ -59,7 +59,19 @@ P.update({
             "Wall-clock only enters through a generous bound (+3 s) whose single expiry is inconclusive; select() interrupted by signals and the Windows branch are out of reach.", "4 C15"),
 })
 
-CLAIMED = ["C01", "C02", "C03", "C04", "C05", "C06", "C07", "C13", "C14", "C15", "C17"]
+P.update({
+    "C10": ("exploration", "runtime monitor: re-parse + structural equality + idempotence + escape-stripped comparison over generated definitions x every width; CLI differential",
+            "300 (quick) / 20 000 (thorough) grammar-directed definitions, decorated with every legal whitespace code point, all five line-ending conventions and comments (incl. ESC bytes), are formatted at every width 0..200 and three huge widths (each fit/no-fit threshold is crossed; crossings are counted); the formatted text must re-parse to a structurally equal definition, re-format byte-identically, equal the colored rendering modulo escapes, and `varlink format -c` must print the same.",
+            "Re-parsing trusts the parser under test (judged separately by C11); member order is per kind (what the public IDL exposes).", "4 C10"),
+    "C11": ("exploration", "differential runtime monitor: implementation vs two independent hand-written recursive-descent recognisers (strict subset / liberal superset) over exhaustive small domains, generated valid texts and token-level near misses",
+            "Every interface name over {a,B,1,-,.} up to length 7 (97 655), every type expression up to 5/6 tokens, every ordered member-kind pair x same/different name x position (duplicate matrix), generated valid definitions in three trivia levels and ten single-token mutants of each are parsed by the real parser and bracketed by a strict and a liberal reference recogniser: strict-accept => must accept with the same structure (names, per-kind order, fields, types, doc comments); liberal-reject => must reject; duplicates => Error::Idl naming every duplicated name; in between => unspecified, counted.",
+            "The reference grammar is reproduced from the published varlink rules from memory; trivia placement is pinned to the implementation's layout (regression only).", "4 C11"),
+    "C12": ("exploration", "runtime monitor: out-of-process totality harness (catch_unwind, 2 MiB stack, watchdog) with a direct oracle on the reported error location",
+            "200 000 (quick) / 10 M (thorough) inputs - random Unicode, byte mutations of valid definitions, every prefix of the repository's .varlink files, all five line-ending conventions with injected errors, nesting to depth 200, token mutations, pathological repetitions up to 64 KiB - are parsed in worker processes; a panic, an abort (stack overflow = process death), a 3x reproduced 60 s overrun, an Error::Parse whose line is not a line of the input or whose column is outside it, or an error that cannot be rendered is a violation.",
+            "Termination is bounded (60 s x3 for inputs <= 64 KiB); nesting beyond 200 is outside the stated bound.", "4 C12"),
+})
+
+CLAIMED = ["C01", "C02", "C03", "C04", "C05", "C06", "C07", "C10", "C11", "C12", "C13", "C14", "C15", "C17"]
 
 ALL = ["C%02d" % i for i in range(1, 21)]
 
